@@ -29,12 +29,19 @@ TERMS = [" ", "\t", "\n", "\r\n", "\f", "\r"]
 # function name, at-rule keyword (atkw = one of the tokenizer's symbols, atkwu = any other, margin = margin box),
 # `url`, hex colour digits, attribute name, @page pseudo; plus str (quote kind) and urlbody (quoted / bare).
 # Attribute names are case-sensitive in XML, so only their escapes are respelled; hex colours only change case.
-NAME_KINDS = ("prop", "imp", "pseudo", "unit", "func", "cfunc", "atkw", "atkwu", "url", "hex", "attr", "margin", "pagepseudo")
-CASE_OK = ("prop", "imp", "pseudo", "unit", "func", "cfunc", "atkw", "atkwu", "url", "hex", "margin", "pagepseudo")
-ESC_OK = ("prop", "imp", "pseudo", "unit", "func", "cfunc", "atkw", "atkwu", "url", "attr", "margin", "pagepseudo")
+# Round 2: names whose EQUALITY with another occurrence matters are generated twice and only one occurrence is
+# respelled: margin box, property name (cascade), media type in a list (medium), namespace prefix declared/used
+# (nsprefix: case-sensitive, escapes only), variable declared/used (varname: escapes only), pseudo twice.
+NAME_KINDS = ("prop", "imp", "pseudo", "unit", "func", "cfunc", "atkw", "atkwu", "url", "hex", "attr", "margin", "pagepseudo",
+              "medium", "nsprefix", "varname")
+CASE_OK = ("prop", "imp", "pseudo", "unit", "func", "cfunc", "atkw", "atkwu", "url", "hex", "margin", "pagepseudo", "medium")
+ESC_OK = ("prop", "imp", "pseudo", "unit", "func", "cfunc", "atkw", "atkwu", "url", "attr", "margin", "pagepseudo",
+          "medium", "nsprefix", "varname")
 # kinds whose hex escapes are left out of the all-at-once respelling while a finding about them is open
 # (C10-atkeyword-hex-escape was repaired by b051860: nothing is excluded now)
 HEX_KNOWN = ()
+# open finding C10-nsprefix-literal-escape: a literal escape in a namespace prefix is kept in the prefix
+LIT_KNOWN = ("nsprefix",)
 
 
 def F(t):
@@ -47,7 +54,7 @@ UNITS = ["px", "em", "ex", "pt", "cm", "deg", "s", "ms", "hz", "khz", "rem", "vh
 PSEUDOC = ["hover", "first-child", "link", "focus", "last-of-type", "target", "x-thing"]
 PSEUDOE = ["before", "after", "first-line", "first-letter", "selection"]
 FPSEUDO = ["nth-child", "nth-of-type", "lang", "nth-last-child"]
-FUNCS = ["attr", "foo", "counter", "x-fn", "local", "format", "translate", "var"]
+FUNCS = ["attr", "foo", "counter", "x-fn", "local", "format", "translate"]
 CFUNCS = ["rgb", "rgba", "hsl", "hsla"]
 ATTRS = ["href", "title", "lang", "x-y", "type"]
 MARGINS = ["top-left", "bottom-center", "left-middle", "top-right-corner"]
@@ -63,6 +70,8 @@ def url_pieces(rng, u=None):
 
 def gen_value_term(rng, depth=0):
     r = rng.random()
+    if getattr(rng, "varnames", None) and r < 0.15:
+        return [("func", "var"), F("("), ("varname", rng.choice(rng.varnames)), F(")")]
     if r < 0.2:
         return [F(rng.choice(["1", "0", "-2", "1.5", "+.5", "10"])), ("unit", rng.choice(UNITS))]
     if r < 0.3:
@@ -114,10 +123,15 @@ def gen_decl(rng):
 
 def gen_decls(rng, n=None):
     out = []
-    for i in range(rng.randint(0, 3) if n is None else n):
+    names = []
+    for i in range(rng.randint(0, 4) if n is None else n):
         if i:
             out.append(F(rng.choice([";", "; ", ";\n"])))
-        out += gen_decl(rng)
+        d = gen_decl(rng)
+        if names and rng.random() < 0.4:      # the same property again: the cascade must see one name
+            d[0] = ("prop", rng.choice(names))
+        names.append(d[0][1])
+        out += d
     if out and rng.random() < 0.5:
         out.append(F(";"))
     return out
@@ -126,7 +140,9 @@ def gen_decls(rng, n=None):
 def gen_simple(rng):
     out = []
     r = rng.random()
-    if r < 0.6:
+    if getattr(rng, "prefixes", None) and r < 0.35:
+        out += [("nsprefix", rng.choice(rng.prefixes)), F("|"), F(rng.choice(["a", "*", "b"]))]
+    elif r < 0.6:
         out.append(F(rng.choice(["a", "div", "*", "h1"])))
     n = rng.randint(0 if out else 1, 2)
     for _ in range(n):
@@ -140,7 +156,10 @@ def gen_simple(rng):
                 out += [("str", rng.choice(["v", "a b", "it's"]))] if rng.random() < 0.6 else [F("v")]
             out.append(F("]"))
         elif r < 0.7:
-            out += [F(":"), ("pseudo", rng.choice(PSEUDOC))]
+            ps = rng.choice(PSEUDOC)
+            out += [F(":"), ("pseudo", ps)]
+            if rng.random() < 0.2:
+                out += [F(":"), ("pseudo", ps)]
         elif r < 0.85:
             f = rng.choice(FPSEUDO)
             arg = "en" if f == "lang" else rng.choice(["2n+1", "odd", "3", "-n+2", "even"])
@@ -168,53 +187,107 @@ def gen_style(rng):
     return out + [F(rng.choice(["{", " {", " { "]))] + gen_decls(rng) + [F("}")]
 
 
-def gen_stmt(rng, top=True, allow_import=False):
+def gen_import(rng):
+    out = [F("@"), ("atkw", "import"), F(" ")]
+    if rng.random() < 0.5:
+        out += url_pieces(rng, rng.choice(URLS[:5]))
+    else:
+        out += [("str", rng.choice(["a.css", "b c.css", "x"]))]
+    if rng.random() < 0.4:
+        out += [F(" ")] + gen_medialist(rng)
+    return out + [F(";")]
+
+
+def gen_namespace(rng):
+    out = [F("@"), ("atkw", "namespace"), F(" ")]
+    if rng.random() < 0.7:
+        pfx = rng.choice(["p", "svg", "x-y"])
+        out += [("nsprefix", pfx), F(" ")]
+        rng.prefixes = rng.prefixes + [pfx]
+    out += url_pieces(rng, "http://n/s") if rng.random() < 0.5 else [("str", "http://n/s")]
+    return out + [F(";")]
+
+
+def gen_variables(rng):
+    names = rng.sample(["c", "main-color", "x"], rng.randint(1, 2))
+    out = [F("@"), ("atkw", "variables"), F(" {")]
+    for i, nm in enumerate(names + ([names[0]] if rng.random() < 0.4 else [])):
+        out += [F("; " if i else " "), ("varname", nm), F(": " + rng.choice(["red", "1px", "#abc"]))]
+    rng.varnames = rng.varnames + names
+    return out + [F(" }")]
+
+
+def gen_stmt(rng, top=True):
     r = rng.random()
-    if allow_import and r < 0.3:
-        out = [F("@"), ("atkw", "import"), F(" ")]
-        if rng.random() < 0.5:
-            out += url_pieces(rng, rng.choice(URLS[:5]))
-        else:
-            out += [("str", rng.choice(["a.css", "b c.css", "x"]))]
-        if rng.random() < 0.4:
-            out += [F(" print")]
-        return out + [F(";")]
-    if allow_import and r < 0.4:
-        out = [F("@"), ("atkw", "namespace"), F(" ")]
-        if rng.random() < 0.5:
-            out += [F("p ")]
-        out += url_pieces(rng, "http://n/s") if rng.random() < 0.5 else [("str", "http://n/s")]
-        return out + [F(";")]
-    if r < 0.55 or not top:
+    if r < 0.5 or not top:
         return gen_style(rng)
     if r < 0.7:
-        out = [F("@"), ("atkw", "media"), F(" " + rng.choice(["print", "screen, print", "screen and (min-width: 100px)", "all"]) + " {")]
-        for _ in range(rng.randint(1, 2)):
-            out += gen_style(rng) + [F(" ")]
-        return out + [F("}")]
-    if r < 0.82:
-        out = [F("@"), ("atkw", "page"), F(" ")]
-        if rng.random() < 0.6:
-            out += [F(":"), ("pagepseudo", rng.choice(["first", "left", "right"])), F(" ")]
-        out += [F("{")] + gen_decls(rng)
-        if rng.random() < 0.4:
-            if out[-1] != F(";") and out[-1] != F("{"):
-                out.append(F(";"))
-            out += [F(" @"), ("margin", rng.choice(MARGINS)), F(" {")] + gen_decls(rng, 1) + [F("}")]
-        return out + [F("}")]
-    if r < 0.92:
+        return gen_media(rng)
+    if r < 0.85:
+        return gen_page(rng)
+    if r < 0.93:
         return [F("@"), ("atkw", "font-face"), F(" {")] + gen_decls(rng, 2) + [F("}")]
     return [F("@"), ("atkwu", rng.choice(["x-unknown", "keyframes"])), F(" foo {"), F("a{x:1}"), F("}")]
 
 
-def gen_stmts(rng):
+MEDIA = ["print", "screen", "tv", "all", "handheld"]
+
+
+def gen_medialist(rng):
     out = []
-    first = True
-    for i in range(rng.randint(1, 3)):
-        st = gen_stmt(rng, allow_import=first and rng.random() < 0.5)
-        first = first and st[1] == ("atkw", "import")
-        out.append(([F(rng.choice(["\n", " ", ""]))] if i else []) + st)
+    ms = [rng.choice(MEDIA) for _ in range(rng.randint(1, 3))]
+    if len(ms) > 1 and rng.random() < 0.5:
+        ms[-1] = ms[0]                         # the same media type twice
+    for i, mt in enumerate(ms):
+        if i:
+            out.append(F(rng.choice([",", ", "])))
+        out.append(("medium", mt))
+        if rng.random() < 0.2:
+            out.append(F(" and (min-width: 100px)"))
     return out
+
+
+def gen_media(rng, depth=0):
+    out = [F("@"), ("atkw", "media"), F(" ")] + gen_medialist(rng) + [F(" {")]
+    for _ in range(rng.randint(1, 2)):
+        r = rng.random()
+        if r < 0.2:
+            out += gen_page(rng)                # @page and @media may be nested in @media
+        elif r < 0.35 and depth < 1:
+            out += gen_media(rng, depth + 1)
+        else:
+            out += gen_style(rng)
+        out.append(F(" "))
+    return out + [F("}")]
+
+
+def gen_page(rng):
+    out = [F("@"), ("atkw", "page"), F(" ")]
+    if rng.random() < 0.6:
+        out += [F(":"), ("pagepseudo", rng.choice(["first", "left", "right"])), F(" ")]
+    out += [F("{")] + gen_decls(rng)
+    if rng.random() < 0.6:
+        boxes = [rng.choice(MARGINS) for _ in range(rng.randint(1, 3))]
+        if len(boxes) > 1 and rng.random() < 0.6:
+            boxes[-1] = boxes[0]               # the same margin box twice: one MarginRule
+        for b in boxes:
+            if out[-1] != F(";") and out[-1] != F("{") and out[-1] != F("}"):
+                out.append(F(";"))
+            out += [F(" @"), ("margin", b), F(" {")] + gen_decls(rng, rng.randint(1, 2)) + [F("}")]
+    return out + [F("}")]
+
+
+def gen_stmts(rng):
+    rng.prefixes, rng.varnames = [], []
+    sts = []
+    if rng.random() < 0.3:
+        sts += [gen_import(rng) for _ in range(rng.randint(1, 2))]
+    if rng.random() < 0.3:
+        sts.append(gen_namespace(rng))
+    if rng.random() < 0.2:
+        sts.append(gen_variables(rng))
+    sts += [gen_stmt(rng) for _ in range(rng.randint(0 if sts else 1, 3))]
+    return [([F(rng.choice(["\n", " ", ""]))] if i else []) + st for i, st in enumerate(sts)]
 
 
 def gen_sheet(rng):
@@ -261,7 +334,8 @@ def respell_name(rng, name, nxt, mode, kind, nohex=False):
         choices = ["plain"]
         if mode in ("case", "mix") and kind in CASE_OK and ch.isalpha() and ch.isascii():
             choices += ["case", "case"]
-        if mode in ("lit", "mix") and kind in ESC_OK and not is_hex(ch) and ch not in "\n\r\f":
+        if mode in ("lit", "mix") and kind in ESC_OK and not is_hex(ch) and ch not in "\n\r\f" and \
+                not (nohex and kind in LIT_KNOWN):
             choices += ["lit", "lit"]
         if mode in ("hex", "mix") and kind in ESC_OK and not (nohex and kind in HEX_KNOWN):
             choices += ["hex", "hex"]
@@ -357,7 +431,7 @@ def value_model(pv):
         elif cn == "URIValue":
             out.append(["URI", v.uri])
         elif cn == "CSSVariable":     # the serializer writes var( itself; name and fallback are the content
-            out.append(["VAR", v.name, value_model([v.fallback])[0] if v.fallback is not None else None])
+            out.append(["VAR", unlit(v.name).lower(), value_model([v.fallback])[0] if v.fallback is not None else None, v.value])
         elif cn in ("CSSFunction", "CSSCalc", "MSValue") and hasattr(v, "seq"):
             out.append([cn, v.type, seq_model(v.seq)])
         else:
@@ -377,7 +451,16 @@ def seq_model(seq):
     return out
 
 def decls(style):
-    return [[p.name, p.priority, value_model(p.propertyValue)] for p in style.getProperties(all=True)]
+    """every declaration in order, plus what the cascade makes of them (names that are the same property must be
+    recognised as the same whatever their spelling)"""
+    return {"all": [[p.name, p.priority, value_model(p.propertyValue)] for p in style.getProperties(all=True)],
+            "effective": [[n, style.getPropertyPriority(n), value_model(style.getProperty(n).propertyValue)]
+                          for n in style.keys()]}
+
+
+def media_model(media):
+    """media queries are case-insensitive and the library keeps their literal text: compared harness-normalised"""
+    return [unlit(it.value.mediaText).lower() for it in media if hasattr(it.value, "mediaText")]
 
 def sel_model(sel):
     items = []
@@ -399,23 +482,26 @@ def rule_model(r):
         d["sel"] = [sel_model(s) for s in r.selectorList]
         d["decls"] = decls(r.style)
     elif t == r.MEDIA_RULE:
-        d["media"] = r.media.mediaText
+        d["media"] = media_model(r.media)
         d["rules"] = [rule_model(x) for x in r.cssRules]
     elif t == r.IMPORT_RULE:
         d["href"] = r.href
-        d["media"] = r.media.mediaText
+        d["media"] = media_model(r.media)
         d["name"] = r.name
     elif t == r.PAGE_RULE:
         d["sel"] = unlit(r.selectorText).lower()     # selector text normalised by the harness (literal text is kept by design)
         d["spec"] = list(r.specificity)
         d["decls"] = decls(r.style)
         d["margins"] = [[m.margin, decls(m.style)] for m in r.cssRules]
+        d["boxes"] = [[k, decls(r[k])] for k in r.keys()]       # what asking the page rule for a margin box gives
     elif t == r.FONT_FACE_RULE:
         d["decls"] = decls(r.style)
     elif t == r.NAMESPACE_RULE:
         d["ns"] = [r.prefix, r.namespaceURI]
     elif t == r.CHARSET_RULE:
         d["enc"] = r.encoding
+    elif t == r.VARIABLES_RULE:
+        d["vars"] = [[k, r.variables[k]] for k in r.variables.keys()]
     elif t == r.UNKNOWN_RULE:
         d["kw"] = r.atkeyword
         d["text"] = r.cssText
@@ -423,13 +509,33 @@ def rule_model(r):
         d["text"] = r.cssText
     return d
 
+class _Count(logging.Handler):
+    def __init__(self):
+        logging.Handler.__init__(self)
+        self.n = 0
+
+    def emit(self, record):
+        self.n += 1
+
+
+_COUNT = _Count()
+_LOGGER = logging.getLogger("C10-count")
+_LOGGER.handlers = [_COUNT]
+_LOGGER.propagate = False
+_LOGGER.setLevel(logging.ERROR)
+
+
 def model(text):
+    """the object model of the parsed sheet + the number of errors the parse logged (each of them is an exception
+    under CSSParser(raiseExceptions=True))"""
     import css_parser
-    css_parser.log.setLevel(logging.FATAL)
+    css_parser.log.setLog(_LOGGER)
+    css_parser.log.setLevel(logging.ERROR)
     css_parser.log.raiseExceptions = False
+    _COUNT.n = 0
     try:
         sh = css_parser.CSSParser(validate=False, fetcher=lambda u: (None, "")).parseString(text)
-        return [rule_model(r) for r in sh.cssRules]
+        return [rule_model(r) for r in sh.cssRules] + [{"errors_logged": _COUNT.n}]
     except Exception as e:
         return ["EXC", type(e).__name__, str(e)[:200]]
 
@@ -461,7 +567,10 @@ def impl_fn(case):
                 m = pat.match(t)
                 return ("NUM", m.end()) if m else ("NUM", None)
             u = Tokenizer.unicodesub(repl, t)
-            return u if cmd == "U" else helper.normalize(u)
+            if cmd == "U":
+                return u
+            a, b = helper.normalize(u), Base._normalizeatkeyword(t)   # the tokenizer's and the consumers' at-keyword key
+            return a if a == b else ("DIFF", a, b)
         if cmd == "V":
             a = helper.urivalue(t)
             b = Base()._uritokenvalue(("URI", t, 1, 1))
@@ -557,11 +666,16 @@ def e2e_case(args):
                 kinds[k] = kinds.get(k, 0) + 1
                 m1 = model(t)
                 if m1 != m0:
-                    # shrink to the statement that holds the respelled token (it is a well-formed sheet by itself)
-                    lo = owner.index(owner[i])
-                    sub = [p for p, o in zip(pcs, owner) if o == owner[i]]
-                    sub = sub[1:] if sub and sub[0][0] == "fix" and sub[0][1] in ("\n", " ", "") and owner[i] else sub
-                    off = i - lo - (len([1 for o in owner if o == owner[i]]) - len(sub))
+                    # shrink to the statement that holds the respelled token, plus the @namespace / @variables
+                    # statements it may refer to (together a well-formed sheet)
+                    keep = [k for k, stm in enumerate(stmts)
+                            if k == owner[i] or any(p in (("atkw", "namespace"), ("atkw", "variables")) for p in stm)]
+                    sub, off = [], None
+                    for j, (p, o) in enumerate(zip(pcs, owner)):
+                        if o in keep:
+                            if j == i:
+                                off = len(sub)
+                            sub.append(p)
                     r2 = random.Random()
                     r2.setstate(st)
                     t2, _c2 = respell_at(r2, sub, {off}, mode)
@@ -571,7 +685,8 @@ def e2e_case(args):
                     else:
                         base_w, t_w = base, t
                     fails.append({"kind": k, "mode": mode, "base": base_w, "respelled": t_w, "piece": pcs[i][1],
-                                  "hex": int(bool(re.search(r"\\[0-9a-fA-F]", respell_piece_text(t_w, base_w))))})
+                                  "hex": int(bool(re.search(r"\\[0-9a-fA-F]", respell_piece_text(t_w, base_w)))),
+                                  "lit": int(bool(re.search(r"\\[^0-9a-fA-F]", respell_piece_text(t_w, base_w))))})
     if el:
         t, ch = respell_at(rng, pcs, set(el), "mix", nohex=True)   # hex escapes of the open finding's kinds excluded
         if ch:
@@ -579,7 +694,7 @@ def e2e_case(args):
             kinds["ALL"] = kinds.get("ALL", 0) + 1
             if model(t) != m0:
                 fails.append({"kind": "ALL", "mode": "mix", "base": base, "respelled": t, "piece": "", "hex": 0})
-        skipped = sum(1 for i in el if pcs[i][0] in HEX_KNOWN)
+        skipped = sum(1 for i in el if pcs[i][0] in HEX_KNOWN + LIT_KNOWN)
     return base, pairs, fails, skipped, kinds
 
 
@@ -591,11 +706,11 @@ def respell_piece_text(t, base):
     b = 0
     while b < min(len(t), len(base)) - a and t[-1 - b] == base[-1 - b]:
         b += 1
-    return t[max(0, a - 1):len(t) - b]
+    return t[max(0, a - 1):len(t) - b + 2]
 
 
 def sig_of(f):
-    return "kind=%s mode=%s hex=%d base=%s respelled=%s" % (f["kind"], f["mode"], f.get("hex", 0),
+    return "kind=%s mode=%s hex=%d lit=%d base=%s respelled=%s" % (f["kind"], f["mode"], f.get("hex", 0), f.get("lit", 0),
                                                              json.dumps(f["base"]), json.dumps(f["respelled"]))
 
 
@@ -648,7 +763,7 @@ def run(ctx):
         d = pair_fails(w)
         if d:
             ctx.violation(d, w, sig_text=sig_of(dict(w, hex=w.get("hex", 0), mode=w.get("mode", "-"), kind=w.get("kind", "corpus"))))
-    nsheets = 2000 if thorough else 300
+    nsheets = 1500 if thorough else 200
     seeds = [(ctx.rng.getrandbits(48), thorough) for _ in range(nsheets)]
     res = ctx.pool_map(e2e_case, seeds, procs=6, chunksize=8)
     pairs = sum(r[1] for r in res)
